@@ -242,7 +242,8 @@ func (s *atpServerSession) onRuntimeMessageReceived(message *DecodedRuntimeMessa
 func (s *atpServerSession) handleWorkStartMessage(runID string, workStartMsg WorkStartMessage) {
 	if runID == "" || workStartMsg.StepID == "" {
 		s.workDone <- ServerError{
-			RunID: "",
+			// Report it for the run it belongs to, if known: an error without a run ID fails every running step.
+			RunID: runID,
 			Err: fmt.Errorf("missing runID (%s) or stepID in work start message (%s)",
 				runID, workStartMsg.StepID),
 			StepFatal:   true,
